@@ -40,4 +40,53 @@ PROPS = {
         trusted=["modelled not verified: stack consumption (only recursion depth is modelled; the lane runs the real parser on 20000-level nests)"],
         assumptions=["driver-level clauses (decode error observed by every pending operation, unknown op under a live search id) are decided with the connection model (C04 lane); this check covers the decoder"],
     ),
+    "C03": dict(
+        groups=[("result", 2500, 150000)],
+        exact_lanes=["result", "helpers"],
+        rule="LDAPResult-bearing responses of the 8 kinds built by an independent encoder (all documented result codes plus 127/128/255/256/65535/65536/2^31-1/2^32-1, "
+             "Unicode matched DN / text, 0-4 referral URIs, SASL creds, extended name/value; 1 in 13 malformed) through LdapResult::from; helper predicates for rc 0..300 "
+             "exhaustively plus boundaries and random u32. non-trivial = distinct case whose conversion returned a result (not a panic)",
+        trivial=["panic"],
+        trusted=["modelled not verified: String::from_utf8 (via Utf8.valid, itself compared with std::str::from_utf8 in C15's lane)"],
+        assumptions=["C03 is stated for well-formed responses; malformed LDAPResults are compared for agreement only",
+                     "response controls and extended-response name/value as seen through real operations are checked in the connection-level lane of this property (resp)"],
+    ),
+    "C08": dict(
+        groups=[("filter", 20000, 1500000)],
+        exact_lanes=["filter"],
+        rule="all strings of length <=2 and a strided sample (quick) / larger sample (thorough) of lengths 3-5 over the 21-symbol alphabet ()&|!=*\\:;.-~<>adn02f and lengths 3-8 over ()a=*\\; "
+             "rendered filter trees (depth<=3, every item kind, all six extensible shapes, rule names dn/dnMatch/dn-x, options, both hex cases, sloppy escaping) "
+             "with single insert/delete mutations; random bytes; recorded witnesses. non-trivial = distinct string the library accepts",
+        trivial=["error"],
+        trusted=["modelled not verified: nom combinators (alt/many0/opt/verify/fold_many0) as ordered choice / greedy repetition"],
+        assumptions=["the RFC-ambiguous shape a:dn:=v is read as the dn flag (c08_dn_rule_ambiguity); the oracle is silent on rule names literally equal to dn"],
+    ),
+    "C09": dict(
+        groups=[("escape", 12000, 600000)],
+        exact_lanes=["esc"],
+        rule="every ASCII string of length <=1 through ldap_escape/dn_escape/ldap_unescape, strided samples of length 2, triples over 16 special characters, random Unicode "
+             "(specials, leading/trailing spaces, #, multi-byte), escape-shaped strings for ldap_unescape. non-trivial = distinct case whose output differs from 'borrowed'",
+        trivial=["borrowed", "error"],
+        trusted=["modelled not verified: Cow borrowing is observed (borrowed/owned) but String allocation is not modelled"],
+        assumptions=[],
+    ),
+    "C15": dict(
+        groups=[("entry", 3000, 200000)],
+        exact_lanes=["entry", "utf8"],
+        rule="entries with 0-8 attributes (occasional repeated names), 0-6 values each: Unicode text, boundary UTF-8 sequences of Unicode table 3-7 and their mutations, mixes; "
+             "1 in 17 malformed; plus byte strings for Utf8.valid vs std::str::from_utf8. non-trivial = distinct well-formed entry/byte string (not a panic)",
+        trivial=["panic"],
+        trusted=["modelled not verified: HashMap (association list with replace-on-insert; keys sorted before comparison)"],
+        assumptions=["attribute names duplicate-free for the theorem (the lane also feeds repeated names and compares model and code)"],
+    ),
+    "C20": dict(
+        groups=[("url", 3000, 200000)],
+        exact_lanes=["url"],
+        rule="RFC 4516 URLs formatted by the harness from random components (Unicode DNs and filters with ? , = % # and spaces, all 16 present/omitted subsets, "
+             "known/unknown x critical/non-critical extensions in several spellings, both hex cases), 1 in 9 with a percent-encoded attribute list, hostile variants "
+             "(bad scope words, non-UTF-8 and malformed percent sequences, surplus ? fields); path/query taken from the url crate. non-trivial = distinct URL accepted",
+        trivial=["err", "url-crate-rejects"],
+        trusted=["oracle, not modelled: the url and percent-encoding crates (the model starts from Url::path()/Url::query(); the lane re-checks both on every case)"],
+        assumptions=["attribute lists are written without percent-encoding in the theorem; percent-encoded attribute names are F19 (known finding)"],
+    ),
 }
